@@ -21,8 +21,8 @@
                                               every_hop_keyed_with_selected,
                                               no_outsider_holds_hop_keys (all histories)
     "never changes an already established hop" → step_hops_append_only, hops_append_only, answer_touches_one_circuit
-                                              (originator side); joined_ids_disjoint, joined_keys_stable,
-                                              relay_route_stable, joined_state_stable,
+                                              (originator side); joined_ids_disjoint_partial, joined_keys_stable_partial,
+                                              relay_route_stable, joined_state_stable_partial,
                                               pairing_under_used_id_refused (responder / relay side)
 -/
 import Ipv8.C08.Lemmas
@@ -157,7 +157,9 @@ theorem answer_touches_one_circuit (C : Crypto Tag Sess Blob) (n : Node Sess) (c
     split
     · split
       · rfl
-      · split <;> rfl
+      · split
+        · rfl
+        · split <;> rfl
     · exact originAnswer_other C n cid ident key auth cands env cid' hc
   · exact originAnswer_other C n cid ident key auth cands env cid' hc
 
@@ -171,7 +173,7 @@ theorem wrong_identifier_rejected (C : Crypto Tag Sess Blob) (n : Node Sess) (ci
     step C n (.created cid ident key auth cands env) = (n, []) ∧
     step C n (.extended cid ident key auth cands env) = (n, []) := by
   have h := origin_reject C n cid ident key auth cands env (Or.inr ⟨c, h0, Or.inr (Or.inl ⟨r, hr, hid⟩)⟩)
-  exact ⟨by simp only [step, onCreated, hrel]; exact h, by simp only [step, onExtended]; exact h⟩
+  exact ⟨by simp only [step, onCreated, pairing_none_of_creates hrel]; exact h, by simp only [step, onExtended]; exact h⟩
 
 example : ((step Free exNode (.created 77 556 (some ⟨20, 0⟩) (.mac [dh 10 20] ⟨20, 0⟩) (.junk 0) ⟨11, 556, none⟩)).1.circuits
     77).map (fun c => c.hops.length) = some 0 := by decide
@@ -186,7 +188,7 @@ theorem no_outstanding_request_rejected (C : Crypto Tag Sess Blob) (n : Node Ses
     step C n (.extended cid ident key auth cands env) = (n, []) := by
   have h' := origin_reject C n cid ident key auth cands env
     (h.elim Or.inl (fun ⟨c, hc, hr⟩ => Or.inr ⟨c, hc, Or.inl hr⟩))
-  exact ⟨by simp only [step, onCreated, hrel]; exact h', by simp only [step, onExtended]; exact h'⟩
+  exact ⟨by simp only [step, onCreated, pairing_none_of_creates hrel]; exact h', by simp only [step, onExtended]; exact h'⟩
 
 example : exNode.circuits 78 = none ∧ exNode.creates 555 = none := by decide
 
@@ -200,7 +202,7 @@ theorem bad_auth_rejected (C : Crypto Tag Sess Blob) (n : Node Sess) (cid ident 
     step C n (.extended cid ident (some w) auth cands env) = (n, []) := by
   have h := origin_reject C n cid ident (some w) auth cands env
     (Or.inr ⟨c, h0, Or.inr (Or.inr (Or.inr ⟨b, x, w, hu, rfl, hbad⟩))⟩)
-  exact ⟨by simp only [step, onCreated, hrel]; exact h, by simp only [step, onExtended]; exact h⟩
+  exact ⟨by simp only [step, onCreated, pairing_none_of_creates hrel]; exact h, by simp only [step, onExtended]; exact h⟩
 
 /-- non-vacuity: outstanding attempt (2, 10); the genuine MAC but over a RE-ENCODED key (same point, enc 1) is rejected -/
 example : ((step Free exNode (.created 77 555 (some ⟨20, 1⟩) (.mac [dh 10 20] ⟨20, 0⟩) (.junk 0) ⟨11, 556, none⟩)).1.circuits
@@ -409,16 +411,16 @@ example :
       (onCreate Free q 88 999 2 (some (pubOf 11)) 21 [5, 5]).2.length = 1 := by decide
 
 /-- relay: on_extend forwards the originator's key bytes unchanged in a CREATE carrying the cache number, and the
-    CREATED that carries that number comes back as an EXTENDED for the original circuit with the ORIGINAL identifier
+    CREATED that carries that number AND names the reserved outgoing circuit id comes back as an EXTENDED for the original circuit with the ORIGINAL identifier
     and the key, auth and candidate bytes unchanged; the relay keeps its own session keys -/
 theorem relay_pairing_transparent (C : Crypto Tag Sess Blob) (r : Node Sess) (cid ident b : Key)
-    (X key : Option Wire) (auth : Tag) (cands : Blob) (ag : Bool) (toCid number anyCid : Nat) (env : Env)
+    (X key : Option Wire) (auth : Tag) (cands : Blob) (ag : Bool) (toCid number : Nat) (env : Env)
     (offeredBefore : List Key) (prev : Hop Sess)
     (hr : r.canRelay = true) (hc : r.created cid = some offeredBefore) (hb : ag = true ∨ b ∈ offeredBefore)
     (hnc : r.circuits cid = none) (hex : r.exits cid = some prev)
     (hfree : r.circuits toCid = none ∧ r.relays toCid = none ∧ r.exits toCid = none) :
     let s1 : Node Sess × List (Out Tag Blob) := onExtend r cid ident b X ag toCid number
-    let s2 := onCreated C s1.1 anyCid number key auth cands env
+    let s2 := onCreated C s1.1 toCid number key auth cands env
     s1.2 = [⟨b, .create toCid number r.me X⟩] ∧
     s2.2 = [⟨prev.peer, .extended cid ident key auth cands⟩] ∧
     (∃ rl, s2.1.relays cid = some rl ∧ rl.keys = prev.keys ∧ rl.target = toCid ∧ rl.peer = b) := by
@@ -439,8 +441,8 @@ theorem relay_pairing_transparent (C : Crypto Tag Sess Blob) (r : Node Sess) (ci
   have e1 : s1 = ({ r with creates := upd r.creates number (some ⟨ident, toCid, cid, prev.peer, b⟩) },
        [⟨b, .create toCid number r.me X⟩]) := hs1
   refine ⟨by rw [e1], ?_, ?_⟩
-  · simp [s2, e1, onCreated, upd_same, hex, hfree.1, hfree.2.1, hfree.2.2]
-  · simp [s2, e1, onCreated, upd_same, hex, hfree.1, hfree.2.1, hfree.2.2]
+  · simp [s2, e1, onCreated, pairing?, upd_same, hex, hfree.1, hfree.2.1, hfree.2.2]
+  · simp [s2, e1, onCreated, pairing?, upd_same, hex, hfree.1, hfree.2.1, hfree.2.2]
 
 /-- non-vacuity: a relay (node 2) that joined circuit 77 pairs the extend to peer 4 with the CREATED numbered 999 -/
 example :
@@ -589,7 +591,7 @@ theorem honest_extend_end_to_end (C : Crypto Tag Sess Blob)
     (∀ c', s4.1.circuits ocid = some c' → c'.hops = c.hops ++ [⟨b, a.2.2.2⟩]) := by
   intro a s1 s2 s3 s4
   obtain ⟨p1, p2, rl, p3, p4, p5, p6⟩ := relay_pairing_transparent C r linkCid rt.ident b (some (pubOf x)) (some a.1)
-    a.2.1 a.2.2.1 ag toCid number toCid env0 offeredBefore prev hr hc hb hnc hex hfree
+    a.2.1 a.2.2.1 ag toCid number env0 offeredBefore prev hr hc hb hnc hex hfree
   have hresp := responder_answer C q toCid number r.me y (pubOf x) offered hj hqc hqu
   simp only [hq] at hresp
   obtain ⟨_, hag⟩ := honest_exchange_agrees C n ocid c b x rt y offered env h0 hu hrt
@@ -618,18 +620,25 @@ example :
 
 /-! ## 6. the joined side: keys and routes of established hops never change
 
-The only side condition is `JoinTimely` / `RunTimely`, and only for the `.join` event (a join_circuit that resumes
-after a suspending, overridden should_join_circuit): the policy did not hold the join back for longer than
-`unstable_timeout` after a competing join of the same id. With the default policy `.join` never occurs on its own
-(`on_create_is_guarded_join`). For everything else no side condition is left: since fix 172d874 the relay branch of on_created refuses to pair when the outgoing circuit
+FULL statement wanted: for EVERY event, incl. `.join` (a join_circuit that resumes after a suspending, overridden
+should_join_circuit), ids stay disjoint and keys stay put.  That is FALSE for the model and for the code: the guards of
+on_create run before the suspension, join_circuit re-checks only the created cache, so a join can resume on an id
+that was taken meanwhile.  `JoinTimely` excludes exactly that — and it is NOT only operator-controlled: the next hop can
+make it false at will by sending a CREATE under the relay's reserved outgoing id (plaintext) so that the join is
+suspended across the pairing (second review; scenario `id-squat/suspended`).  In that state the id is exit socket AND
+relay route; the theorems named `…_partial` are silent there.  The Python endpoint stays functional because
+`process_cell` serves relay routes before exit sockets (crypto.py, outside this model), so no cell for that id ever
+reaches on_extend / on_create again; that precedence is a trusted fact here, exercised by the harness, not proved.
+Unconditional for the default (non-suspending) policy: `joined_state_stable_default_policy`.  With the default policy
+`.join` never occurs on its own (`on_create_is_guarded_join`). For everything else no side condition is left: since fix 172d874 the relay branch of on_created refuses to pair when the outgoing circuit
 id it reserved is meanwhile in use at the node (that id travels in a plaintext CREATE, so the next hop or the network
 could — and on the unrepaired tree did — make it collide on purpose; see `pairing_under_used_id_refused`).
-The events are the eleven of `Ev`; explicit removals (destroy from the neighbour, inactivity sweep, unload) are not
+The events are the twelve of `Ev`; explicit removals (destroy from the neighbour, inactivity sweep, unload) are not
 events of this model (properties C05/C09/C11): after such a removal the id is free again by design. -/
 
 /-- a circuit id is never an exit socket and a relay route at the same time (on_create refuses ids in use; the relay
     branch of on_created removes the exit socket it converts and refuses outgoing ids in use) -/
-theorem joined_ids_disjoint (C : Crypto Tag Sess Blob) (n : Node Sess) (e : Ev Tag Blob)
+theorem joined_ids_disjoint_partial (C : Crypto Tag Sess Blob) (n : Node Sess) (e : Ev Tag Blob)
     (hd : Disjoint n) (hj : JoinTimely n e) : Disjoint (step C n e).1 := by
   intro cid
   rcases step_joined C n e with ⟨h1, h2⟩ | ⟨c1, h, he, hr, _, h1, h2⟩ |
@@ -659,7 +668,7 @@ example : Disjoint (Node.init 2 true true : Node Secret) := fun _ => Or.inl rfl
 /-- responder / relay side of an established hop: whatever event follows (replayed CREATE after the created-cache
     expired, replayed EXTEND, late or forged CREATED, a CREATE squatting on a reserved outgoing id, timeouts …) the
     session keys held for circuit id `cid` stay the same -/
-theorem joined_keys_stable (C : Crypto Tag Sess Blob) (n : Node Sess) (e : Ev Tag Blob) (cid : Nat) (k : Sess)
+theorem joined_keys_stable_partial (C : Crypto Tag Sess Blob) (n : Node Sess) (e : Ev Tag Blob) (cid : Nat) (k : Sess)
     (hj : JoinTimely n e) (hk : entryKeys n cid = some k) : entryKeys (step C n e).1 cid = some k := by
   unfold entryKeys at hk ⊢
   rcases step_joined C n e with ⟨h1, h2⟩ | ⟨c1, h, he, hr, _, h1, h2⟩ |
@@ -713,7 +722,7 @@ theorem relay_route_stable (C : Crypto Tag Sess Blob) (n : Node Sess) (e : Ev Ta
     rw [upd_other _ _ ht]; exact hr
 
 /-- all histories, from any state in which no id is exit socket and relay route at once (in particular `Node.init`) -/
-theorem joined_state_stable (C : Crypto Tag Sess Blob) (evs : List (Ev Tag Blob)) (n : Node Sess)
+theorem joined_state_stable_partial (C : Crypto Tag Sess Blob) (evs : List (Ev Tag Blob)) (n : Node Sess)
     (hd : Disjoint n) (hj : RunTimely C n evs) :
     Disjoint (run C n evs) ∧
     (∀ cid k, entryKeys n cid = some k → entryKeys (run C n evs) cid = some k) ∧
@@ -722,9 +731,30 @@ theorem joined_state_stable (C : Crypto Tag Sess Blob) (evs : List (Ev Tag Blob)
   | nil => exact ⟨hd, fun _ _ h => h, fun _ _ h => h⟩
   | cons e es ih =>
     obtain ⟨hj1, hj2⟩ := hj
-    obtain ⟨i1, i2, i3⟩ := ih (step C n e).1 (joined_ids_disjoint C n e hd hj1) hj2
-    exact ⟨i1, fun cid k h => i2 cid k (joined_keys_stable C n e cid k hj1 h),
+    obtain ⟨i1, i2, i3⟩ := ih (step C n e).1 (joined_ids_disjoint_partial C n e hd hj1) hj2
+    exact ⟨i1, fun cid k h => i2 cid k (joined_keys_stable_partial C n e cid k hj1 h),
       fun cid rl h => i3 cid rl (relay_route_stable C n e cid rl hd h)⟩
+
+/-- the shipped, non-suspending policy (no resumed joins in the trace): no side condition at all -/
+theorem joined_state_stable_default_policy (C : Crypto Tag Sess Blob) (evs : List (Ev Tag Blob)) (n : Node Sess)
+    (hd : Disjoint n) (hnj : ∀ e ∈ evs, NoResumedJoin e) :
+    Disjoint (run C n evs) ∧
+    (∀ cid k, entryKeys n cid = some k → entryKeys (run C n evs) cid = some k) ∧
+    (∀ cid rl, n.relays cid = some rl → (run C n evs).relays cid = some rl) := by
+  apply joined_state_stable_partial C evs n hd
+  induction evs generalizing n with
+  | nil => trivial
+  | cons e es ih =>
+    refine ⟨?_, ih _ (joined_ids_disjoint_partial C n e hd ?_) (fun e' he' => hnj e' (by simp [he']))⟩ <;>
+    · have := hnj e (by simp)
+      cases e <;> first | trivial | exact absurd this (by simp [NoResumedJoin])
+
+/-- non-vacuity: a trace of the default policy with replays and a squatting CREATE -/
+example : ∀ e ∈ ([.create 77 555 1 (some ⟨10, 0⟩) 20 [3, 4, 4], .createdExpire 77,
+    .create 77 556 1 (some ⟨40, 0⟩) 21 []] : List (Ev FTag FBlob)), NoResumedJoin e := by
+  intro e he
+  simp at he
+  rcases he with rfl | rfl | rfl <;> trivial
 
 /-- a second join of an id that is being joined already (a duplicated CREATE that passed the guards of on_create
     while the first one was still suspended in should_join_circuit) writes nothing and answers nothing: the
@@ -758,16 +788,20 @@ example :
     relay (circuit, relay route or exit socket) only consumes the pending request -/
 theorem pairing_under_used_id_refused (C : Crypto Tag Sess Blob) (n : Node Sess) (cid ident : Nat)
     (key : Option Wire) (auth : Tag) (cands : Blob) (env : Env) (req : CreateReq)
-    (hreq : n.creates ident = some req)
+    (hreq : n.creates ident = some req) (hcid : req.toCid = cid)
     (hused : (n.circuits req.toCid).isSome ∨ (n.relays req.toCid).isSome ∨ (n.exits req.toCid).isSome) :
     let r := step C n (.created cid ident key auth cands env)
     r.2 = [] ∧ r.1.exits = n.exits ∧ r.1.relays = n.relays ∧ r.1.circuits = n.circuits ∧
       r.1.creates = upd n.creates ident none := by
   have hb : ((n.circuits req.toCid).isSome || (n.relays req.toCid).isSome || (n.exits req.toCid).isSome) = true := by
     rcases hused with h | h | h <;> simp [h]
+  have hp : pairing? n cid ident = some req := by simp [pairing?, hreq, hcid]
   cases hex : n.exits req.fromCid with
-  | none => simp [step, onCreated, hreq, hex]
-  | some ex => simp [step, onCreated, hreq, hex, hb]
+  | none => simp [step, onCreated, hp, hex]
+  | some ex =>
+    by_cases hpeer : (ex.peer != req.peer) = true
+    · simp [step, onCreated, hp, hex, hpeer]
+    · simp [step, onCreated, hp, hex, hpeer, hb]
 
 /-- non-vacuity (the attack found by review, on the model of the repaired code): relay 2 reserved id 88 for the
     victim's extension; the next hop squats on 88 with a circuit of its own and extends it (id 90); the victim's
